@@ -69,22 +69,22 @@ func sceneQuery(o ReqOpts) {
 		r, err := k.Bindings(gctx, &types.QueryBindingsRequest{ServiceName: Svc})
 		chk("C17 C15", vf.And(err == nil, r != nil), "bindings-ok")
 		if err == nil && r != nil {
-			chk("C17 C15", len(r.ServiceBindings) == s.N, "bindings-of-service-exactly")
+			chk("C17 C15 C18", len(r.ServiceBindings) == s.N, "bindings-of-service-exactly")
 			for _, b := range r.ServiceBindings {
-				chk("C17 C15", b.ServiceName == Svc, "listed-binding-has-the-service")
+				chk("C17 C15 C18", b.ServiceName == Svc, "listed-binding-has-the-service")
 			}
 		}
 		ro, err := k.Bindings(gctx, &types.QueryBindingsRequest{ServiceName: Svc, Owner: s.Owner})
 		if err == nil && ro != nil {
-			chk("C17 C15", len(ro.ServiceBindings) == s.N, "bindings-of-owner-exactly")
+			chk("C17 C15 C18", len(ro.ServiceBindings) == s.N, "bindings-of-owner-exactly")
 			for _, b := range ro.ServiceBindings {
-				chk("C17 C15", vf.And(b.ServiceName == Svc, b.Owner.Equals(s.Owner)), "listed-binding-has-service-and-owner")
+				chk("C17 C15 C18", vf.And(b.ServiceName == Svc, b.Owner.Equals(s.Owner)), "listed-binding-has-service-and-owner")
 			}
 		}
 		rs, err := k.Bindings(gctx, &types.QueryBindingsRequest{ServiceName: Svc, Owner: stranger})
-		chk("C17 C15", vf.And(err == nil, rs != nil && len(rs.ServiceBindings) == 0), "no-bindings-for-a-stranger")
+		chk("C17 C15 C18", vf.And(err == nil, rs != nil && len(rs.ServiceBindings) == 0), "no-bindings-for-a-stranger")
 		rx, err := k.Bindings(gctx, &types.QueryBindingsRequest{ServiceName: Svc + "x"})
-		chk("C17 C15", vf.And(err == nil, rx != nil && len(rx.ServiceBindings) == 1), "extended-name-lists-only-its-own")
+		chk("C17 C15 C18", vf.And(err == nil, rx != nil && len(rx.ServiceBindings) == 1), "extended-name-lists-only-its-own")
 		_ = bx
 		bz, lerr := lq(types.QueryBindings, types.QueryBindingsParams{ServiceName: Svc, Owner: s.Owner})
 		var lb []*types.ServiceBinding
@@ -139,22 +139,22 @@ func sceneQuery(o ReqOpts) {
 			if i < s.M && s.Active[i] {
 				wantN = 1
 			}
-			chk("C17", vf.And(err == nil, r != nil && len(r.Requests) == wantN), "pending-requests-of-binding-exactly")
+			chk("C17 C18", vf.And(err == nil, r != nil && len(r.Requests) == wantN), "pending-requests-of-binding-exactly")
 			if err == nil && r != nil && len(r.Requests) == 1 && wantN == 1 {
-				chk("C17", vf.And(string(r.Requests[0].Id) == string(s.ReqIDs[i]), r.Requests[0].Provider.Equals(s.Provs[i])), "pending-request-is-the-stored-one")
+				chk("C17 C18", vf.And(string(r.Requests[0].Id) == string(s.ReqIDs[i]), r.Requests[0].Provider.Equals(s.Provs[i])), "pending-request-is-the-stored-one")
 			}
 			bz, lerr := lq(types.QueryRequests, types.QueryRequestsParams{ServiceName: Svc, Provider: s.Provs[i]})
 			var lr []types.Request
 			chk("C17", vf.All(lerr == nil, vf.FromAminoJSON(bz, &lr) == nil, len(lr) == wantN), "legacy-pending-requests-same")
 		}
 		r, err := k.Requests(gctx, &types.QueryRequestsRequest{ServiceName: Svc + "x", Provider: s.Provs[0]})
-		chk("C17", vf.And(err == nil, r != nil && len(r.Requests) == 0), "other-service-has-no-pending-requests")
+		chk("C17 C18", vf.And(err == nil, r != nil && len(r.Requests) == 0), "other-service-has-no-pending-requests")
 	case 7: // requests and responses of a batch
 		r, err := k.RequestsByReqCtx(gctx, &types.QueryRequestsByReqCtxRequest{RequestContextId: id, BatchCounter: bc})
-		chk("C17", vf.And(err == nil, r != nil && len(r.Requests) == s.M), "requests-of-batch-exactly")
+		chk("C17 C18", vf.And(err == nil, r != nil && len(r.Requests) == s.M), "requests-of-batch-exactly")
 		if err == nil && r != nil && len(r.Requests) == s.M {
 			for j := 0; j < s.M; j++ {
-				chk("C17", string(r.Requests[j].Id) == string(s.ReqIDs[j]), "requests-of-batch-in-index-order")
+				chk("C17 C18", string(r.Requests[j].Id) == string(s.ReqIDs[j]), "requests-of-batch-in-index-order")
 			}
 		}
 		nresp := 0
@@ -164,9 +164,15 @@ func sceneQuery(o ReqOpts) {
 			}
 		}
 		rr, err := k.Responses(gctx, &types.QueryResponsesRequest{RequestContextId: id, BatchCounter: bc})
-		chk("C17", vf.And(err == nil, rr != nil && len(rr.Responses) == nresp), "responses-of-batch-exactly")
+		chk("C17 C18", vf.And(err == nil, rr != nil && len(rr.Responses) == nresp), "responses-of-batch-exactly")
 		r2, err := k.RequestsByReqCtx(gctx, &types.QueryRequestsByReqCtxRequest{RequestContextId: id, BatchCounter: bc + 1})
-		chk("C17", vf.And(err == nil, r2 != nil && len(r2.Requests) == 0), "other-batch-has-no-requests")
+		chk("C17 C18", vf.And(err == nil, r2 != nil && len(r2.Requests) == 0), "other-batch-has-no-requests")
+		if bc >= 1 { // batches are numbered from 1: nothing is stored under batch 0
+			r0, err0 := k.RequestsByReqCtx(gctx, &types.QueryRequestsByReqCtxRequest{RequestContextId: id, BatchCounter: 0})
+			chk("C17 C18", vf.And(err0 == nil, r0 != nil && len(r0.Requests) == 0), "batch-zero-has-no-requests")
+			rr0, err0 := k.Responses(gctx, &types.QueryResponsesRequest{RequestContextId: id, BatchCounter: 0})
+			chk("C17 C18", vf.And(err0 == nil, rr0 != nil && len(rr0.Responses) == 0), "batch-zero-has-no-responses")
+		}
 		bz, lerr := lq(types.QueryRequestsByReqCtx, types.QueryRequestsByReqCtxParams{RequestContextID: id, BatchCounter: bc})
 		var lr []types.Request
 		chk("C17", vf.All(lerr == nil, vf.FromAminoJSON(bz, &lr) == nil, len(lr) == s.M), "legacy-requests-of-batch-same")
@@ -200,13 +206,13 @@ func sceneQuery(o ReqOpts) {
 	case 9: // earned fees
 		for i := 0; i < s.N; i++ {
 			r, err := k.EarnedFees(gctx, &types.QueryEarnedFeesRequest{Provider: s.Provs[i]})
-			chk("C17", vf.And(err == nil, r != nil && r.Fees.AmountOf(Denom).Equal(s.Earned0[i])), "earned-fees-are-the-stored-ones")
+			chk("C17 C18", vf.And(err == nil, r != nil && r.Fees.AmountOf(Denom).Equal(s.Earned0[i])), "earned-fees-are-the-stored-ones")
 			bz, lerr := lq(types.QueryEarnedFees, types.QueryEarnedFeesParams{Provider: s.Provs[i]})
 			var lf sdk.Coins
 			chk("C17", vf.All(lerr == nil, vf.FromAminoJSON(bz, &lf) == nil, lf.AmountOf(Denom).Equal(s.Earned0[i])), "legacy-earned-fees-same")
 		}
 		r, err := k.EarnedFees(gctx, &types.QueryEarnedFeesRequest{Provider: stranger})
-		chk("C17", vf.And(err == nil, r != nil && r.Fees.Empty()), "no-earned-fees-for-a-stranger")
+		chk("C17 C18", vf.And(err == nil, r != nil && r.Fees.Empty()), "no-earned-fees-for-a-stranger")
 	case 10: // params
 		r, err := k.Params(gctx, &types.QueryParamsRequest{})
 		chk("C17", vf.And(err == nil, r != nil && sameParams(r.Params, k.GetParams(ctx))), "params-are-the-stored-ones")
